@@ -87,7 +87,10 @@ TPGen == /\ Tr[l].e = "PGen"
          /\ LET e == Tr[l]
                 s == ps[e.obj]
                 L == 32 * s.limit
-            IN  /\ Judge(s.live, l, e, "plan error: generate on a dead object")
+            IN  IF ~s.live
+                THEN /\ Judge(FALSE, l, e, "generate on an object whose instantiation was already rejected")
+                     /\ UNCHANGED <<ps, since>>
+                ELSE
                 /\ Judge(RequestsWellFormed(e) /\ e.canary = 1 /\ e.ocanary = 1, l, e, "requests well-formed, canaries intact")
                 /\ IF e.ctl = 1
                    THEN LET g == GenerateCtl(s.counter, s.limit, e.size) IN
@@ -114,15 +117,16 @@ TPFeed == /\ Tr[l].e = "PFeed"
           /\ LET e == Tr[l]
                  s == ps[e.obj]
              IN  /\ Judge(s.live /\ Len(e.ent) = 0 /\ e.canary = 1, l, e, "feed makes no entropy request")
-                 /\ ps' = [ps EXCEPT ![e.obj] = IF e.ctl = 1 THEN [s EXCEPT !.counter = s.counter + 1]
-                                                ELSE Mk(Feed(s, e.d))]
+                 /\ ps' = IF ~s.live THEN ps
+                          ELSE [ps EXCEPT ![e.obj] = IF e.ctl = 1 THEN [s EXCEPT !.counter = s.counter + 1]
+                                                     ELSE Mk(Feed(s, e.d))]
           /\ since' = since
 
 TPReseed == /\ Tr[l].e = "PReseed"
             /\ LET e == Tr[l]
                    s == ps[e.obj]
                IN  /\ Judge(s.live /\ Len(e.ent) = 1 /\ RequestsWellFormed(e) /\ e.canary = 1, l, e, "reseed makes exactly one entropy request")
-                   /\ IF Len(e.ent) >= 1
+                   /\ IF Len(e.ent) >= 1 /\ s.live
                       THEN /\ Judge((e.res # 0) <=> (e.ent[1].n = SeedLen), l, e, "status is non-zero iff a full 32-byte seed was delivered")
                            /\ ps' = [ps EXCEPT ![e.obj] = IF e.ctl = 1 THEN [s EXCEPT !.counter = 1]
                                                           ELSE Mk(Reseed(s, Del(e.ent[1])))]
@@ -135,7 +139,7 @@ TPLimit == /\ Tr[l].e = "PLimit"
                   n == SetLimit(s, LimitOf(e))
               IN  /\ Judge(s.live /\ Len(e.ent) = 0 /\ e.canary = 1, l, e, "set-limit makes no entropy request")
                   /\ Judge(n.limit >= 1 /\ n.limit <= 32768, l, e, "limit between 32 bytes and 1 MiB")
-                  /\ ps' = [ps EXCEPT ![e.obj] = [s EXCEPT !.limit = n.limit]]
+                  /\ ps' = IF ~s.live THEN ps ELSE [ps EXCEPT ![e.obj] = [s EXCEPT !.limit = n.limit]]
            /\ since' = since
 
 TPFree == /\ Tr[l].e = "PFree"
